@@ -15,7 +15,7 @@ DST = "/verif/seeded"
 ALSO = {"C01/m3": ["C04"], "C05/m2": ["C06"], "C02/m2": ["C04"], "C02/m3": ["C04"], "C14/m3": ["C02"], "C10/m1": ["C08"], "C16/m3": ["C15"], "C02/r2m2": ["C18"], "C01/r2m3": ["C04"]}
 
 def try_check(patch, cid):
-    p = subprocess.run(["/verif/tools/try_mutant.sh", patch, cid], capture_output=True, text=True)
+    p = subprocess.run(["/verif/tools/try_mutant.sh", patch, cid], capture_output=True, text=True, errors="replace")
     out = p.stdout
     m = re.search(r"rc=(\d+) violations=(\d+)", out)
     sigs = [l.strip()[len("signature="):].split(" cases=")[0] for l in out.splitlines() if l.strip().startswith("signature=")]
